@@ -82,7 +82,15 @@ class PeriodicRun:
         class HCms(Cms):
             def on_sense(self, sensor, time, data):
                 run.cms_log.append((sensor, time, list(data), self))
+                if sensor is getattr(run, 'sensor', None):
+                    run.mix_log.append(('cms', id(self)))
                 run.keep(data, time, 'the Cms')
+
+            def add_sensor(self, sensor):
+                # (the order in which the sensor's consumers - plain callbacks and Cms - subscribed)
+                if sensor is getattr(run, 'sensor', None) and ('cms', id(self)) not in run.reg_order:
+                    run.reg_order.append(('cms', id(self)))
+                super().add_sensor(sensor)
 
         with instrument.use_bus(self.bus):
             self.system = System()
@@ -102,6 +110,8 @@ class PeriodicRun:
             self.cms = None
             self.more_cms = []          # further condition-monitoring systems watching the same sensor
             self.ncb = 0
+            self.mix_log = []
+            self.reg_order = []
             self.cb_log = []
             self.cms_log = []
             self.kept = []
@@ -124,8 +134,9 @@ class PeriodicRun:
             self.sensor = PeriodicSensor(case['interval'], self.probes, name='sensor', **kw)
         else:
             self.sensor = Sensor(self.probes, name='sensor', **kw)
-        for j in range(case['callbacks']):
-            self.add_cb()
+        if not case.get('cms_first'):
+            for j in range(case['callbacks']):
+                self.add_cb()
         if case['cms']:
             self.cms = HCms(Maintainer(name='m'), name='cms')
             for _ in range(case['cms']):
@@ -140,8 +151,13 @@ class PeriodicRun:
             if case.get('cms2'):
                 # a second, independent condition-monitoring system watches the same sensor(s)
                 self.add_cms()
+        if case.get('cms_first'):
+            # the condition-monitoring systems subscribed first, the plain callbacks afterwards (all before the first run)
+            for j in range(case['callbacks']):
+                self.add_cb()
 
     def add_cb(self):
+        self.reg_order.append(('cb', self.ncb))
         self.sensor.add_on_sense_callback(self.make_cb(self.ncb))
         self.ncb += 1
 
@@ -171,6 +187,8 @@ class PeriodicRun:
     def make_cb(self, j):
         def cb(sensor, time, data):
             self.cb_log.append((j, sensor, time, list(data), data))
+            if sensor is self.sensor:
+                self.mix_log.append(('cb', j))
             if j == 0:
                 self.keep(data, time, 'callback 0')
             if j == 0 and self.case.get('cb_touches_queue') and self.case['kind'] == 'periodic':
@@ -279,6 +297,18 @@ class PeriodicRun:
                               f'expected (sensor, {t!r}, {vals})')
                     return
             self.sh.count('callback_calls_checked', len(got))
+            # plain callbacks and condition-monitoring systems together: each once, in the order they subscribed
+            mix, self.mix_log = self.mix_log, []
+            if mix != self.reg_order:
+                def show(ts):
+                    ids = {}
+                    return [f'callback {x[1]}' if x[0] == 'cb' else f'cms #{ids.setdefault(x[1], len(ids) + 1)}' for x in ts]
+                self.fail('callbacks', f'measurement at {t!r}: the sensor\'s consumers were called as {show(mix)}; they '
+                          f'subscribed as {show(self.reg_order)}')
+                return
+            self.sh.count('consumer_orders_checked')
+            if self.cms is not None and any(x[0] == 'cb' for x in mix) and mix[0][0] == 'cms':
+                self.sh.count('measurements_with_a_cms_subscribed_before_a_plain_callback')
             if self.cms is not None:
                 got = [g for g in self.cms_log if g[0] is self.sensor and g[3] is self.cms]
                 if len(got) != 1 or got[0][0] is not self.sensor or got[0][1] != t or got[0][2] != vals:
@@ -607,7 +637,7 @@ def gen_periodic(rng, tie):
             'capacity': rng.choice([None, 1, 2, 3, 4, 6]), 'callbacks': rng.choice([0, 1, 2, 3]),
             'cms': rng.choice([0, 1, 2]), 'horizon': hs, 'script': script, 'tie': tie,
             'tie_seed': rng.randrange(1 << 30), 'late': len(hs) == 2 and rng.random() < 0.5,
-            'twin': rng.random() < 0.3}
+            'twin': rng.random() < 0.3, 'cms_first': rng.random() < 0.4}
 
 
 def gen_part(rng, tie):
